@@ -298,18 +298,26 @@ impl DBInner {
 
         macro_rules! check_meta {
             ($func:ident) => {{
-                let meta1 = Page::from_buf(&data, 0, self.pagesize).$func();
+                // A page that is not even marked as a meta page is just as unusable
+                // as one whose hash does not match.
+                let page1 = Page::from_buf(&data, 0, self.pagesize);
+                let valid1 = page1.page_type == Page::TYPE_META && page1.$func().valid();
                 // Double check that we have the right pagesize before we read the second page.
-                if meta1.valid() && meta1.pagesize != self.pagesize {
+                if valid1 && page1.$func().pagesize != self.pagesize {
                     assert_eq!(
-                        meta1.pagesize, self.pagesize,
+                        page1.$func().pagesize,
+                        self.pagesize,
                         "Invalid pagesize from meta1 {}. Expected {}.",
-                        meta1.pagesize, self.pagesize
+                        page1.$func().pagesize,
+                        self.pagesize
                     );
                 }
-                let meta2 = Page::from_buf(&data, 1, self.pagesize).$func();
-                match (meta1.valid(), meta2.valid()) {
+                let page2 = Page::from_buf(&data, 1, self.pagesize);
+                let valid2 = page2.page_type == Page::TYPE_META && page2.$func().valid();
+                match (valid1, valid2) {
                     (true, true) => {
+                        let meta1 = page1.$func();
+                        let meta2 = page2.$func();
                         assert_eq!(
                             meta1.pagesize, self.pagesize,
                             "Invalid pagesize from meta1 {}. Expected {}.",
@@ -327,6 +335,7 @@ impl DBInner {
                         }
                     }
                     (true, false) => {
+                        let meta1 = page1.$func();
                         assert_eq!(
                             meta1.pagesize, self.pagesize,
                             "Invalid pagesize from meta1 {}. Expected {}.",
@@ -335,6 +344,7 @@ impl DBInner {
                         Some(meta1)
                     }
                     (false, true) => {
+                        let meta2 = page2.$func();
                         assert_eq!(
                             meta2.pagesize, self.pagesize,
                             "Invalid pagesize from meta2 {}. Expected {}.",
